@@ -2,6 +2,8 @@
 
 package proxy
 
+import "net/http"
+
 // Verification hooks (build tag verif): thin exported wrappers around unexported helpers so that the
 // correspondence harness in /verif can call the real code in-process. No behaviour is changed.
 
@@ -10,3 +12,10 @@ func VerifI32toa(n int32) string { return i32toa(n) }
 
 // VerifUint16Base16 exposes uint16base16.
 func VerifUint16Base16(n uint16) string { return uint16base16(n) }
+
+// VerifResponseWriter wraps w in the responseWriter ServeHTTP puts around the client connection to capture
+// status code and body size for the access log; captured returns what ServeHTTP would hand to the logger.
+func VerifResponseWriter(w http.ResponseWriter) (rw http.ResponseWriter, captured func() (code, size int)) {
+	x := &responseWriter{w: w}
+	return x, func() (int, int) { return x.code, x.size }
+}
